@@ -1,12 +1,51 @@
-(* C02 - every input is counted exactly once.  Property theorems only. *)
-From Grcov Require Import Model.Pipeline.
+(* C02 - every input is counted exactly once, for every thread count and interleaving.
+   Property theorems only; proofs in Proofs/PipelineFacts.v (inductive invariant over the 18 labels). *)
+From Grcov Require Import Model.Pipeline Proofs.MergeFacts Proofs.PipelineFacts.
 
-(* a complete no-fault execution of two workers over three items (non-vacuity of the run relation) *)
+(* No item is lost or duplicated at any point of any execution (for every number of workers, every
+   queue capacity, every interleaving): remaining + queued + held + merged + rejected + lost = all items. *)
+Theorem C02_conservation : forall c items ls s,
+  run c (init c items) ls = Some s ->
+  exists d, items ≡ₚ tracked s ++ d /\ (s_p s <> PDead -> d = []).
+Proof. exact conservation_strong. Qed.
+(* The result map is always the aggregation (C01) of the batches merged so far, in merge order. *)
+Theorem C02_acc_is_aggregate : forall c items ls s,
+  run c (init c items) ls = Some s ->
+  s_acc s = add_results ∅ (concat (map (batch c) (s_merged s))).
+Proof. exact acc_is_aggregate. Qed.
+(* Exactly once: an execution without worker-killing faults that ends with status 0 has merged exactly the
+   accepted items, each once; its map observably equals the aggregation of their batches in list order. *)
+Theorem C02_exactly_once : forall c items ls s,
+  (1 <= n_workers c)%nat ->
+  no_deaths c items ->
+  run c (init c items) ls = Some s -> s_m s = MExit 0 ->
+  s_merged s ≡ₚ filter (fun i => accepted c i = true) items /\
+  obs_map (s_acc s) = obs_map (add_results ∅ (concat (map (batch c) (filter (fun i => accepted c i = true) items)))).
+Proof. exact exactly_once. Qed.
+(* Independence of the number of workers, the capacity, the interleaving and the order of the inputs:
+   two runs may differ only outside [obs] (start lines of functions the inputs disagree about). *)
+Theorem C02_order_independent : forall c1 c2 items1 items2 ls1 ls2 s1 s2,
+  (1 <= n_workers c1)%nat -> (1 <= n_workers c2)%nat ->
+  parse c1 = parse c2 -> fault c1 = fault c2 -> items1 ≡ₚ items2 ->
+  no_deaths c1 items1 ->
+  run c1 (init c1 items1) ls1 = Some s1 -> s_m s1 = MExit 0 ->
+  run c2 (init c2 items2) ls2 = Some s2 -> s_m s2 = MExit 0 ->
+  obs_map (s_acc s1) = obs_map (s_acc s2).
+Proof. exact order_independent. Qed.
+(* the hypothesis N >= 1 is needed (the property quantifies over N >= 1): with no worker the model exits 0
+   with the items still queued *)
+Theorem C02_exactly_once_needs_a_worker :
+  ~ (forall c items ls s, no_deaths c items -> run c (init c items) ls = Some s -> s_m s = MExit 0 ->
+       s_merged s ≡ₚ filter (fun i => accepted c i = true) items /\
+       obs_map (s_acc s) = obs_map (add_results ∅ (concat (map (batch c) (filter (fun i => accepted c i = true) items))))).
+Proof. exact exactly_once_needs_a_worker. Qed.
+
+(* a complete no-fault execution of two workers over three items (non-vacuity of the hypotheses) *)
 Definition cfg2 : cfg := mkCfg 2 4 false (fun i => Some [([102], mkCov {[ 1 := i ]} ∅ ∅)]) (fun _ => FNone).
 Definition sched2 : list label :=
   [LSend; LSend; LRecv 1; LSend; LRecv 0; LParsed 0; LProdDone; LMerged 0; LRecv 0; LParsed 1; LJoinedProd; LSentStop;
    LMerged 1; LParsed 0; LSentStop; LStopsDone; LMerged 0; LRecvStop 1; LRecvStop 0; LJoined; LJoined; LFinish].
-Theorem C02_example_run :
+Example C02_example_run :
   (fun o => match o with
             | Some s => Some (s_m s, s_merged s, (c_lines <$> s_acc s !! [102]) ≫= (.!! 1%N))
             | None => None end) (run cfg2 (init cfg2 [0; 1; 2]%N) sched2)
